@@ -3,7 +3,8 @@
   fragment of jq with closures, recursion, error handling and state-threading loops
   (Model/MiniVM.lean): identity, constants, pipe, comma, `.[]`, `.name`, `empty`, `[q]`, `error`,
   `try b`, `try b catch h`, `if c then a else b end`, `l // r`, `$x`, `src as $x | body`,
-  `reduce src as $x (init; upd)`, `foreach src as $x (init; upd; ext)`, one-filter-parameter
+  `reduce src as $x (init; upd)`, `foreach src as $x (init; upd; ext)`, object construction
+  `{(k): v, a: v, "a": v, a, "a", $x, …}` with generator keys and values, one-filter-parameter
   functions `def f(g): …` with arbitrary recursion, the parameter `g`, calls `f(a)` whose argument
   is passed as a closure.  What the fragment takes from the host library — `funcIndex2` behind
   `.name` and the texts of the two error messages `catch` can receive — is a parameter
@@ -13,8 +14,13 @@
   off and `step` is the `Next()` loop for the opcodes they use; both are tied to the code on
   every run by the `mini` stream (instruction-list equality and output equality on random
   programs).  Proofs: Proofs/MiniVM{Yields,Compile,Refine,RefineCall,RefineTry,RefineCond,
-  RefineVar,RefineLoop,RefineForeach,Prog}.lean — one lemma `cy_<construct>` per construct,
+  RefineVar,RefineLoop,RefineForeach,RefineObj,Prog}.lean — one lemma `cy_<construct>` per construct,
   assembled by induction on the fuel.
+
+  Object constructions are `obj spine` with the entries as a left-nested spine `objSnoc (… objStart …) k v`
+  / `objSnocC … key v` inside `Q` (`Q.Closed` demands a non-empty spine under every `obj`; a spine alone is
+  not a query: the reference semantics gives it no meaning and the theorems say nothing about it).
+  `delay q` is `q` with one more unit of reference fuel and no instruction (`delay_emits_no_code`).
 
   Restrictions of the fragment (`Prog.WF` / `Q.Closed`): functions are top-level with exactly one
   filter parameter, and a `$variable` is only used in the scope that binds it — not inside the
@@ -27,6 +33,8 @@
   statement (DESIGN §6 C01.3 `compile_refines_spec`) could be written down.
 -/
 import Gojq.Proofs.MiniVMProg
+import Gojq.Proofs.MiniVMObjSpec
+import Gojq.Proofs.MiniVMStrip
 namespace Gojq.C01Compile
 open Gojq Gojq.MiniVM
 
@@ -157,5 +165,114 @@ theorem error_unwinds_through_forks {code F'} (h : ForksOK code F') (F : List Fo
   err_through h F x R
 
 example {code : Code} : ForksOK code [] := ForksOK.nil
+
+/-! ## object construction -/
+
+/-- `{(k1): v1, (k2): v2}` -/
+def obj2 (k1 v1 k2 v2 : Q) : Q := .obj (.objSnoc (.objSnoc .objStart k1 v1) k2 v2)
+
+/-- The order of evaluation of an object construction, as the reference semantics has it (and, by
+    `compile_yields`, the compiled code): the FIRST key is the outermost loop, each key is
+    evaluated before its value, the LAST value is the innermost loop; every key and value is
+    evaluated on the input of the whole construction; the object is built (and a non-string key
+    reported) only after all entries have produced a value. -/
+theorem object_evaluation_order (defs : Name → Q) (n : Nat) (g : Ctx) (ρ : Env) (k1 v1 k2 v2 : Q) (x : V) :
+    eval defs (n+1) g ρ (obj2 k1 v1 k2 v2) x =
+      (eval defs n g ρ k1 x).bindG fun a => (eval defs n g ρ v1 x).bindG fun b =>
+      (eval defs n g ρ k2 x).bindG fun c => (eval defs n g ρ v2 x).bindG fun d =>
+        objOfPairs [(a, b), (c, d)] := rfl
+
+/-- … and for entries with constant keys (`{a: v1, "b": v2}`, `{a}`, `{$x}`): only the values loop -/
+theorem object_evaluation_order_const (defs : Name → Q) (n : Nat) (g : Ctx) (ρ : Env) (a b : V) (v1 v2 : Q) (x : V) :
+    eval defs (n+1) g ρ (.obj (.objSnocC (.objSnocC .objStart a v1) b v2)) x =
+      (eval defs n g ρ v1 x).bindG fun w1 => (eval defs n g ρ v2 x).bindG fun w2 =>
+        objOfPairs [(a, w1), (b, w2)] := rfl
+
+/-- The instructions of `{(k1): v1, (k2): v2}` are compileObject's: `store r; load r; k1; load r; v1;
+    load r; k2; load r; v2; object 2`. -/
+theorem object_code_shape (entry : Name → Nat) (g : Ctx) (e p : Nat) (k1 v1 k2 v2 : Q) :
+    compile entry g e p (obj2 k1 v1 k2 v2) =
+      [.store e (p - e), .load e (p - e)] ++ compile entry g e (p + 2) k1 ++ [.load e (p - e)] ++
+        compile entry g e (p + 2 + k1.size + 1) v1 ++ [.load e (p - e)] ++
+        compile entry g e (p + 2 + k1.size + 1 + v1.size + 1) k2 ++ [.load e (p - e)] ++
+        compile entry g e (p + 2 + k1.size + 1 + v1.size + 1 + k2.size + 1) v2 ++ [.object 2] := by
+  simp only [obj2, compile, Q.entries, compile_length, List.length_append, List.length_cons, List.length_nil,
+    List.nil_append, List.append_assoc, List.cons_append]
+  have e1 : p + (0 + 1) + 1 = p + 2 := by omega
+  have e2 : p + (k1.size + (v1.size + 1) + 1 + 1) + 1 = p + 2 + k1.size + 1 + v1.size + 1 := by omega
+  rw [e1, e2]
+
+omit [IterMsg] in
+/-- what `opobject` builds: a later entry overrides an earlier one with the same key … -/
+theorem object_last_duplicate_wins (k : Bytes) (v1 v2 : V) :
+    objOfPairs [(.str k, v1), (.str k, v2)] = ⟨[.obj [(k, v2)]], .done⟩ := by
+  simp [objOfPairs, objOfPairsRev, kvInsert]
+
+omit [IterMsg] in
+/-- … and the LAST entry whose key is not a string is the one reported -/
+theorem object_last_bad_key_reported (v1 v2 : V) :
+    objOfPairs [(.null, v1), (.bool true, v2)] = ⟨[], .err (.keyNotStr (.bool true))⟩ := by
+  simp [objOfPairs, objOfPairsRev]
+
+omit [IterMsg] in
+/-- The object `opobject` builds from the evaluated pairs (the loop of execute.go: pop the pairs last
+    entry first, stop at the first key that is not a string, keep a key already present) is what
+    `Spec.evalObject` prescribes at its last step (Model/Spec.lean, same expressions): the LAST
+    entry whose key is not a string is the error; otherwise `JV.mkObj` of the string-keyed pairs in
+    the order of the entries — insert in order, a later duplicate replaces the earlier one. -/
+theorem object_built_as_Spec_evalObject (acc : List (V × V)) :
+    objOfPairs acc =
+      match acc.reverse.find? (fun (k, _) => match k with | .str _ => false | _ => true) with
+      | some (k, _) => ⟨[], .err (.keyNotStr k)⟩
+      | none => ⟨[JV.mkObj (acc.filterMap fun (k, v) => match k with | .str b => some (b, v) | _ => none)], .done⟩ :=
+  objOfPairs_eq_spec acc
+
+/-- `delay q` (Model/MiniVM.lean) is the query `q` with one more unit of REFERENCE fuel — the relation
+    `Tr` of Model/MiniSpec.lean uses it to give the mini reference evaluator the fuel `Spec.evalObject`
+    spends per object entry.  It emits no instruction: the compiled program is that of the program
+    without its `delay`s (`Prog.strip`), which is what the `mini` stream compares with the real
+    compiler's output … -/
+theorem delay_emits_no_code (p : Prog) (hwf : p.WF) : compileProg p.strip = compileProg p :=
+  compileProg_strip p hwf
+
+/-- … and so the machine runs are the same -/
+theorem delay_same_runs (p : Prog) (hwf : p.WF) (fuel : Nat) (v : V) : runProg p.strip fuel v = runProg p fuel v := by
+  simp only [runProg, compileProg_strip p hwf]
+
+/-- `{("a","b"): .[], "c": .}`, `{"a": 1, "a": 2}`, `{"a": ., (1): error}` -/
+def exObj : Prog := ⟨[], .obj (.objSnocC (.objSnoc .objStart (.comma (.const (.str [97])) (.const (.str [98]))) .iter) (.str [99]) .id)⟩
+def exObjDup : Prog := ⟨[], obj2 (.const (.str [97])) (.const (.num (.int 1))) (.const (.str [97])) (.const (.num (.int 2)))⟩
+def exObjKey : Prog := ⟨[], obj2 (.const (.str [97])) .id (.const (.num (.int 1))) (.const .null)⟩
+def exObjErr : Prog := ⟨[], obj2 (.const (.num (.int 1))) .id (.const (.str [97])) .error⟩
+
+example : exObj.WF ∧ exObjDup.WF ∧ exObjKey.WF ∧ exObjErr.WF := by
+  refine ⟨⟨by simp [exObj], ?_, by simp [Q.HasParam, exObj]⟩, ⟨by simp [exObjDup], ?_, by simp [Q.HasParam, exObjDup, obj2]⟩,
+    ⟨by simp [exObjKey], ?_, by simp [Q.HasParam, exObjKey, obj2]⟩, ⟨by simp [exObjErr], ?_, by simp [Q.HasParam, exObjErr, obj2]⟩⟩ <;>
+  simp [Q.Closed, Q.IsSpine, exObj, exObjDup, exObjKey, exObjErr, obj2]
+
+/-- `{("a","b"): .[], "c": .}` on `[7,8]`: the first key is the outermost loop —
+    `{"a":7,"c":[7,8]}, {"a":8,…}, {"b":7,…}, {"b":8,…}` — on the machine and in the reference semantics -/
+example : (match @runProg exMsg exObj 400 exInput2 with
+    | .finished [.obj [([97], .num (.int 7)), ([99], _)], .obj [([97], .num (.int 8)), ([99], _)],
+                 .obj [([98], .num (.int 7)), ([99], _)], .obj [([98], .num (.int 8)), ([99], _)]] none => true
+    | _ => false) = true
+    ∧ (match @eval exMsg exObj.defsFn 40 ⟨none, []⟩ ⟨.none, []⟩ exObj.main exInput2 with
+    | ⟨[.obj [([97], .num (.int 7)), ([99], _)], .obj [([97], .num (.int 8)), ([99], _)],
+        .obj [([98], .num (.int 7)), ([99], _)], .obj [([98], .num (.int 8)), ([99], _)]], .done⟩ => true
+    | _ => false) = true := by decide +kernel
+
+/-- `{"a": 1, "a": 2}` is `{"a": 2}` -/
+example : (match @runProg exMsg exObjDup 400 exInput2 with
+    | .finished [.obj [([97], .num (.int 2))]] none => true | _ => false) = true := by decide +kernel
+
+/-- `{"a": ., (1): null}`: no output, the key error for `1` -/
+example : (match @runProg exMsg exObjKey 400 exInput2 with
+    | .finished [] (some (.plain (.keyNotStr (.num (.int 1))))) => true | _ => false) = true := by decide +kernel
+
+/-- `{(1): ., "a": error}`: the error of the value comes before the object is built (the bad key `1` is
+    never reported) -/
+example : (match @runProg exMsg exObjErr 400 exInput2 with
+    | .finished [] (some (.plain (.user _))) => true | _ => false) = true := by decide +kernel
+
 
 end Gojq.C01Compile
